@@ -366,6 +366,13 @@ func init() {
 							}
 						}
 					}
+					// the order-sensitive reductions over the same arrangements
+					for _, q := range []string{`quantile(0.5, a)`, `quantile(0.9, a)`, `quantile(0, a)`, `quantile(1, a)`, `quantile by (l) (0.25, a)`, `min(a)`, `max(a)`, `min by (l) (a)`, `max by (l) (a)`,
+						`sum(a)`, `avg(a)`, `avg by (l) (a)`, `stddev(a)`, `stdvar by (l) (a)`, `count(a)`, `group(a)`} {
+						for _, pr := range []int{2, 8} {
+							emit(&core.Case{Q: q, Data: data, W: core.Range(0, 30000, 3), O: core.Opts{Optimizers: "none", Procs: pr}, Note: "NaN arrangement"})
+						}
+					}
 				}
 			}
 		})
